@@ -52,7 +52,7 @@ def close(a, b, exact):
 
 class WfqPart:
     name = "wfq"
-    kinds = ["wfq", "vc"]
+    kinds = ["wfq", "vc", "wfq2", "vc2"]
     serves = ["C14", "C12", "C08"]
     coq_imports = ["From ONL Require Import Base.Cmp Elem.Packet Elem.StoreQ Elem.HeapList Elem.WFQServer Elem.WFQ Elem.VC."]
     props_files = {"C14": ["Props/C14.v"], "C12": ["Props/C12_WFQ.v"], "C08": ["Props/C08_WFQ.v"]}
@@ -87,7 +87,24 @@ class WfqPart:
 
     # ---- generation ---------------------------------------------------------------------------------
     def gen_case(self, rng, tier, prop_id):
-        kind = "wfq" if rng.random() < 0.6 else "vc"
+        r = rng.random()
+        if r < 0.16:
+            # two scheduler instances in ONE Environment, sharing class ids (same or different tables): instances
+            # must not influence each other (each is replayed against its own copy of the model)
+            kind = "wfq" if r < 0.11 else "vc"
+            a = self._gen_single(rng, kind)
+            b = self._gen_single(rng, kind)
+            if rng.random() < 0.5:
+                b["classes"], b["f2c"], b["exact"] = dict(a["classes"]), dict(a["f2c"]), (a["exact"] and b["exact"])
+                flows = sorted(int(f) for f in b["f2c"]) or sorted(int(c) for c in b["classes"])
+                for sp in b["workload"]["packets"].values():
+                    if int(sp["flow"]) not in flows:
+                        sp["flow"] = rng.choice(flows)
+            b["workload"] = shift_workload(b["workload"], 100)
+            return {"kind": kind + "2", "insts": [a, b], "pre": rng.random() < 0.3}
+        return self._gen_single(rng, "wfq" if rng.random() < 0.6 else "vc")
+
+    def _gen_single(self, rng, kind):
         k = rng.choice([1, 2, 2, 3, 3, 4])
         exact = True
         if kind == "wfq":
@@ -178,51 +195,124 @@ class WfqPart:
 
     # ---- implementation -----------------------------------------------------------------------------
     def run_impl(self, case):
+        if case["kind"] in ("wfq2", "vc2"):
+            obs = self._run(case["insts"], case.get("pre"))
+            return {"multi": obs[:-1], "interfere": obs[-1], "raised": obs[0]["raised"]}
+        return self._run([case], case.get("pre"))[0]
+
+    def _run(self, cases, pre):
+        """run one or several scheduler instances in ONE Environment; returns one observation per instance (each with
+        the global clock advances and its own put/step entries, sampled on its own public state) + interference notes"""
         from onl.sim import Environment
         env = Environment()
         h = ec.Harness(env)
-        w = case["workload"]
-        h.add_packets(w["packets"])
-        tbl = {int(f): int(c) for f, c in case["f2c"].items()}
-        f2c = lambda f: tbl.get(f, f)                                                   # noqa: E731
-        cls = sorted(int(c) for c in case["classes"])
-        flows = sorted({int(s["flow"]) for s in w["packets"].values()})
-        rate = case["rate"]
+        n = len(cases)
+        tags = [""] if n == 1 else ["A", "B", "C"][:n]
+        owner = {}
+        for i, c in enumerate(cases):
+            h.add_packets(c["workload"]["packets"])
+            for u in c["workload"]["packets"]:
+                owner[int(u)] = i
+        insts, samplers = [], []
 
-        def make():
-            if case["kind"] == "wfq":
+        def make(i, c):
+            tbl = {int(f): int(cl) for f, cl in c["f2c"].items()}
+            f2c = lambda f: tbl.get(f, f)                                                   # noqa: E731
+            if c["kind"] == "wfq":
                 from onl.scheduler.wfq import WFQ
-                return WFQ(env, rate, {int(c): int(v) for c, v in case["classes"].items()}, flow2class=f2c)
-            from onl.scheduler.virtual_clock import VC
-            return VC(env, rate, {int(c): ec.T(v) for c, v in case["classes"].items()}, flow2class=f2c)
-        if case.get("pre"):
-            for d in w["drivers"]:
-                h.add_driver(d["bursts"], late=d["late"])
-        s = make()
-        s.out = h.tap("out")
-        h.attach(s)
-        h.watch_store("store", s.store)
-
-        def num(x):
-            return ec.qs(x)
-
-        def sample():
-            cur = s.current_packet
-            cur = getattr(cur, "uid", -2) if cur is not None else -1
-            per = [[f, s.queue_count.get(f, 0), s.queue_byte_size.get(f, 0)] for f in flows]
-            if case["kind"] == "wfq":
-                extra = {"vtime": num(s.vtime), "last": num(s.last_time), "active": sorted(s.active_set),
-                         "fin": [[c, num(s.finish_times.get(c, 0))] for c in cls]}
+                s = WFQ(env, c["rate"], {int(cl): int(v) for cl, v in c["classes"].items()}, flow2class=f2c)
+                proc = s.action
             else:
-                extra = {"aux": [[c, num(s.aux_vc.get(c, 0))] for c in cls]}
-            return [cur, len(s.store.items), s.packets_received, per, extra]
-        h.after_action(sample)
-        if not case.get("pre"):
-            for d in w["drivers"]:
+                from onl.scheduler.virtual_clock import VC
+                s = VC(env, c["rate"], {int(cl): ec.T(v) for cl, v in c["classes"].items()}, flow2class=f2c)
+                proc = s.proc
+            s.out = h.tap("out" + tags[i])
+            h.watch_store("store" + tags[i], s.store)
+            if tags[i]:
+                proc._generator.__name__ = "run" + tags[i]
+                orig = s.send_packet
+
+                def send_packet(packet, orig=orig, tag=tags[i]):
+                    g = orig(packet)
+                    g.__name__ = "send_packet" + tag
+                    return g
+                s.send_packet = send_packet
+            cls = sorted(int(cl) for cl in c["classes"])
+            flows = sorted({int(sp["flow"]) for sp in c["workload"]["packets"].values()})
+
+            def sample():
+                cur = s.current_packet
+                cur = getattr(cur, "uid", -2) if cur is not None else -1
+                per = [[f, s.queue_count.get(f, 0), s.queue_byte_size.get(f, 0)] for f in flows]
+                if c["kind"] == "wfq":
+                    extra = {"vtime": ec.qs(s.vtime), "last": ec.qs(s.last_time), "active": sorted(s.active_set),
+                             "fin": [[cl, ec.qs(s.finish_times.get(cl, 0))] for cl in cls]}
+                else:
+                    extra = {"aux": [[cl, ec.qs(s.aux_vc.get(cl, 0))] for cl in cls]}
+                return [cur, len(s.store.items), s.packets_received, per, extra]
+            insts.append(s)
+            samplers.append(sample)
+
+        def drivers():
+            for i, c in enumerate(cases):
+                for d in c["workload"]["drivers"]:
+                    h.add_driver(d["bursts"], late=d["late"], target=insts[i] if n > 1 else None)
+        if pre and n == 1:
+            for d in cases[0]["workload"]["drivers"]:
                 h.add_driver(d["bursts"], late=d["late"])
-        log = h.run(max_steps=6000)
-        return {"log": log, "raised": h.raised, "exhausted": h.exhausted,
-                "final": {"total": s.total_packets, "items": len(s.store.items), "cur": s.current_packet is None}}
+        for i, c in enumerate(cases):
+            make(i, c)
+        h.attach(insts[0])
+        h.after_action(lambda: [f() for f in samplers])
+        if n > 1 or not pre:
+            drivers()
+        log = h.run(max_steps=9000)
+        # split the global log per instance
+        logs = [[] for _ in range(n)]
+        interfere = []
+        prev = None
+        for e in log:
+            k = e[0]
+            samples = e[-1]
+            if k == "adv":
+                who = None
+                for i in range(n):
+                    logs[i].append(["adv", e[1], samples[i]])
+            elif k == "put":
+                who = owner[e[1]]
+                logs[who].append(["put", e[1], e[2], samples[who]])
+            elif k in ("step", "raise"):
+                tgt = e[1][1] if e[1] else ""
+                who = 0
+                if n > 1:
+                    who = next((i for i in range(n) if tgt.endswith(tags[i])), None)
+                    if who is None:
+                        interfere.append(f"instances-interfere: kernel step {e[1]} cannot be attributed to an instance")
+                        who = 0
+                    tgt = tgt.replace("send_packet" + tags[who], "send_packet").replace("run" + tags[who], "run")
+                    if tgt.endswith(tags[who]) and tgt.startswith("store"):
+                        tgt = "store"
+                    for o in e[2]:
+                        if o[1] != "out" + tags[who]:
+                            interfere.append(f"instances-interfere: packet {o[2]} of instance {tags[who]} came out of tap {o[1]}")
+                        o[1] = "out"
+                entry = [k, [e[1][0], tgt] if e[1] else e[1], e[2]] + ([e[3]] if k == "raise" else []) + [samples[who]]
+                logs[who].append(entry)
+            else:
+                who = None
+            if prev is not None and n > 1 and not interfere:
+                for i in range(n):
+                    if i != who and samples[i] != prev[i]:
+                        interfere.append(f"instances-interfere: a {k} action of instance {tags[who] if who is not None else '-'} changed the public "
+                                         f"state of instance {tags[i]}: {prev[i]} -> {samples[i]}")
+            prev = samples
+        out = []
+        for i, s in enumerate(insts):
+            out.append({"log": logs[i], "raised": h.raised, "exhausted": h.exhausted,
+                        "final": {"total": s.total_packets, "items": len(s.store.items), "cur": s.current_packet is None}})
+        if n > 1:
+            out.append(interfere[:2])
+        return out
 
     # ---- the log as the monitors read it ----------------------------------------------------------------
     def _events(self, case, obs):
@@ -333,6 +423,11 @@ class WfqPart:
 
     # ---- the property as an oracle ----------------------------------------------------------------------
     def monitor(self, case, obs, prop_id):
+        if case["kind"] in ("wfq2", "vc2"):
+            msgs = list(obs["interfere"])
+            for c, o in zip(case["insts"], obs["multi"]):
+                msgs += self.monitor(c, o, prop_id)
+            return msgs[:3]
         kind = case["kind"]
         if obs["raised"]:
             return [f"{kind}-raises: {obs['raised'][0]}: {obs['raised'][1][:160]}"]
@@ -507,6 +602,8 @@ class WfqPart:
 
     # ---- bookkeeping ------------------------------------------------------------------------------------
     def nontrivial(self, case, obs, prop_id):
+        if case["kind"] in ("wfq2", "vc2"):
+            return all(self.nontrivial(c, o, prop_id) for c, o in zip(case["insts"], obs["multi"]))
         if len(case["workload"]["packets"]) < 3 or obs.get("raised"):
             return False
         ev = self._events(case, obs)
@@ -521,6 +618,13 @@ class WfqPart:
         return False
 
     def shrink(self, case):
+        if case["kind"] in ("wfq2", "vc2"):
+            for i in (0, 1):
+                for c in self.shrink(case["insts"][i]):
+                    ins = list(case["insts"])
+                    ins[i] = c
+                    yield {**case, "insts": ins}
+            return
         for w in ec.shrink_workload(case["workload"]):
             if w["packets"] and all(d["bursts"] for d in w["drivers"]):
                 yield {**case, "workload": w}
@@ -531,6 +635,9 @@ class WfqPart:
             yield {**case, "f2c": {f: c for f, c in case["f2c"].items() if f in used}}
 
     def describe(self, case, obs):
+        if case["kind"] in ("wfq2", "vc2"):
+            a, b = case["insts"]
+            return [case["kind"], case["kind"] + (":same-tables" if a["classes"] == b["classes"] else ":different-tables")]
         k = case["kind"]
         keys = [k, f"{k}:classes={len(case['classes'])}", f"{k}:style={case.get('style', '?')}",
                 f"{k}:packets={min(len(case['workload']['packets']), 12)}", f"{k}:drivers={len(case['workload']['drivers'])}",
@@ -603,6 +710,13 @@ class WfqPart:
         return False
 
     def agree_term(self, case, obs):
+        if case["kind"] in ("wfq2", "vc2"):
+            if obs["interfere"]:
+                return "false (* instances interfere *)"
+            ts = [self.agree_term(c, o) for c, o in zip(case["insts"], obs["multi"])]
+            if any(t is None for t in ts):
+                return None
+            return "(" + ") && (".join(ts) + ")"
         if obs["raised"]:
             return "false"
         acts, err = self._actions(case, obs)
@@ -627,6 +741,13 @@ class WfqPart:
             tol = "0" if case.get("exact", True) else "(1 # 1000000000)"
             return f"wfq_first_bad {self._cfg(case)} {tol} {body}"
         return f"vc_first_bad {self._cfg(case)} {body}"
+
+
+def shift_workload(w, k):
+    """renumber the uids of a workload by +k (second instance)"""
+    pk = {str(int(u) + k): {**sp, "id": sp["id"] + k} for u, sp in w["packets"].items()}
+    dr = [{"late": d["late"], "bursts": [[t, [u + k for u in uids]] for (t, uids) in d["bursts"]]} for d in w["drivers"]]
+    return {"packets": pk, "drivers": dr}
 
 
 def held_c(case, part, uid):
